@@ -39,7 +39,10 @@ def main(argv):
         for m in sorted(glob.glob(os.path.join(VERIF, "seeded", "*", "meta.json"))):
             meta = json.load(open(m))
             pd = os.path.join(os.path.dirname(m), "patch.diff")
-            for pr in ([meta["property"]] if isinstance(meta.get("property"), str) else meta.get("property", [])):
+            # a seeded change is tried against the check(s) recorded as catching it (possibly the check of another
+            # property); a recorded miss is tried against its own property's check and must not raise an alarm
+            runs = sorted({c.split("-")[0] for c in meta.get("caught_by", [])}) or [meta["property"]]
+            for pr in runs:
                 cases.append((pr, pd, meta.get("expect", "kill")))
         if props:
             cases = [c for c in cases if c[0] in props]
@@ -61,7 +64,7 @@ def main(argv):
             r = sh([os.path.join(VERIF, "verify"), prop, "--tier", "quick", "--no-evidence"], env=env, cwd=VERIF)
             sh(["patch", "-p1", "-s", "-R", "-i", patch], cwd=repo)
             rules = sorted(set(l.split()[1] for l in r.stdout.splitlines() if l.startswith("  violation ")))
-            good = (r.returncode == 1) if expect == "kill" else (r.returncode == 0)
+            good = (r.returncode == 1) if expect == "kill" else (r.returncode != 1) if expect == "miss" else (r.returncode == 0)
             verdict = {0: "silent", 1: "VIOLATION", 2: "analysis-broken"}.get(r.returncode, "rc=%d" % r.returncode)
             print("%-7s %-60s %-16s %-30s %s %.1fs" % (expect, os.path.relpath(patch, VERIF), verdict, ",".join(rules), "ok" if good else "MISSED" if expect == "kill" else "FALSE-ALARM", time.time() - t0))
             if not good:
